@@ -285,6 +285,25 @@ pub fn scenarios(_tier: &str) -> Vec<Scenario> {
         s.fin = FinPlan::Anytime;
         s.config.half_closed = false;
     });
+    // half-closed connections not allowed and the handler never completes (long poll): the peer's
+    // FIN alone must bring the connection down — nothing else will ever wake the task
+    add("fin-nohalf-handler-never-completes", vec![RequestSpec::new("GET", 0)], vec![ok_bytes().pend(1)], &|s| {
+        s.fin = FinPlan::Anytime;
+        s.config.half_closed = false;
+        s.env.hold_gates = true;
+    });
+    add("fin-nohalf-handler-never-completes-pipelined", vec![RequestSpec::new("GET", 0), RequestSpec::new("GET", 1)], vec![ok_bytes().pend(1), ok_bytes()], &|s| {
+        s.fin = FinPlan::Anytime;
+        s.config.half_closed = false;
+        s.env.hold_gates = true;
+    });
+    // more pipelined requests in one segment than the dispatcher queues (16), the peer stays
+    for n in [18usize, 34] {
+        add(&format!("pipe-{n}-peer-stays"), (0..n).map(|i| RequestSpec::new("GET", i)).collect(), (0..n).map(|i| if i == 0 { ok_bytes().pend(1) } else { ok_bytes() }).collect(), &|s| {
+            s.fin = FinPlan::Never;
+            s.env.budgets = vec![("read", 10), ("write", 20), ("flush", 10), ("env", 40), ("envq", 10), ("shutdown", 2)];
+        });
+    }
     // early response + linger
     add("early-response-linger", vec![RequestSpec::new("POST", 0).cl(&data(64, 1))], vec![ok_bytes().plan(PayloadPlan::HoldUnreadUntilBodyDone)], &|s| {
         s.config.disconnect_timeout_ms = 1000;
